@@ -175,7 +175,33 @@ def spacing_rules(repo):
         out.append(unrecognised("R-AXES", fi, role, t))
     # pair enumeration: inner over annotations[i+1:], outer over annotations[:-1] (or all)
     out += pair_loops(fi)
+    out += grouping_rule(fi)
     return out
+
+
+def grouping_rule(fi):
+    """rows reach the per-example lists through their OWN example index (`lists[example_idx].append(..)` in a loop over the rows): the
+    table need not be sorted.  Cutting the table into consecutive blocks (torch.split / bincount / chunk / itertools.groupby) groups by
+    position and is only right for rows sorted by example index."""
+    from ..core import named
+    role = "rows are grouped by their example index (whatever the order of the rows)"
+    keyed = []
+    for lp in walk_no_nested(fi.node):
+        if isinstance(lp, ast.For) and isinstance(lp.target, ast.Tuple) and lp.target.elts and isinstance(lp.target.elts[0], ast.Name):
+            k = lp.target.elts[0].id
+            for st in lp.body:
+                if isinstance(st, ast.Expr) and isinstance(st.value, ast.Call) and isinstance(st.value.func, ast.Attribute) and \
+                        st.value.func.attr == "append" and isinstance(st.value.func.value, ast.Subscript) and \
+                        isinstance(st.value.func.value.slice, ast.Name) and st.value.func.value.slice.id == k:
+                    keyed.append(st)
+    if keyed:
+        return [holds("PAIRS", fi, role, unparse(keyed[0])[:70], keyed[0], nontrivial=False)]
+    positional = [n for n in walk_no_nested(fi.node) if isinstance(n, ast.Call) and dotted(n.func) in ("torch.split", "torch.tensor_split", "numpy.split",
+                  "numpy.array_split", "itertools.groupby", "torch.chunk") and any("X" == getattr(x, "id", None) for a in n.args for x in ast.walk(a))]
+    if positional:
+        return [named("PAIRS", fi, role, "`%s` cuts the table into consecutive blocks: rows of an unsorted (interleaved / descending) table end up in the "
+                      "wrong example" % unparse(positional[0])[:60], positional[0])]
+    return [unrecognised("PAIRS", fi, role, "no `lists[example_idx].append(..)` in a loop over the rows")]
 
 
 def pair_loops(fi):
